@@ -1,5 +1,154 @@
+/-
+  C01 — Selected data are the stored samples at the selected coordinates (all formats).
+
+  "For a data set of any supported format ... and any active selection, every element obtained by
+   indexing vis, flags and weights is the stored sample, after the format's documented conversion,
+   at the dump, channel and correlation product named by the data set's dumps, channels and
+   corr_products, while timestamps, freqs and per-dump sensor arrays are the labels and values of
+   those same dumps and channels.  The reported shape always equals (len(timestamps), len(freqs),
+   len(corr_products)) and the shape advertised by each of the three arrays.  An indexer obtained
+   from the data set keeps describing the selection that was in force when it was obtained."
+
+  Model: KatdalModel/Model/DataSetGlue.lean on top of the index algebra; the first stage of every
+  format is the triple of selection masks (C04 model for v4, C05 model for v2/v3/v1).
+-/
+import KatdalModel.Props.C04
+import KatdalModel.Props.C05
 import KatdalModel.Model.DataSetGlue
 open Np Index Glue
+
 namespace C01
-theorem placeholder : (1 : Nat) = 1 := rfl
+
+theorem nonzeroFrom_append_false : ∀ (m : List Bool) (k : Nat),
+    nonzeroFrom k (m ++ [false]) = nonzeroFrom k m := by
+  intro m
+  induction m with
+  | nil => intro k; simp [nonzeroFrom]
+  | cons b t ih => intro k; cases b <;> simp [nonzeroFrom, ih]
+
+/-- **Duplicate final dump** (v2/v3): when the stored array has one more dump than the data set,
+    the padded mask selects exactly the same dumps -/
+theorem c01_dupdump (m : List Bool) : labelsOf (padTimeMask m (m.length + 1)) = labelsOf m := by
+  simp [padTimeMask, labelsOf, nonzero, nonzeroFrom_append_false]
+
+theorem c01_no_dup (m : List Bool) : labelsOf (padTimeMask m m.length) = labelsOf m := by
+  simp [padTimeMask]
+
+/-- the dumps / channels / corr_products attributes are strictly increasing valid positions -/
+theorem c01_labels_valid (m : List Bool) :
+    (labelsOf m).Pairwise (· < ·) ∧ ∀ k ∈ labelsOf m, k < m.length :=
+  LazyIx.nonzero_spec m
+
+/-- **v4 first stage**: handing a selection mask to the dask indexer selects exactly the positions
+    named by the corresponding attribute (`dumps`, `channels`, `corr_products`) — masks are
+    never in the dask known-finding family -/
+theorem c01_v4_first_stage (m : List Bool) :
+    DaskIx.getitem1 m.length (.mask m) = .ok (.many (labelsOf m)) := by
+  rw [C04.c04_getitem_axis_partial m.length (.mask m) rfl]
+  simp [Ix.resolve, labelsOf]
+
+/-- **HDF5 first stage** (v1-v3): the LazyIndexer lookup built from a selection mask selects
+    exactly the positions named by the corresponding attribute -/
+theorem c01_h5_first_stage (m : List Bool) :
+    Ix.resolve m.length (.mask m) = .ok (.many (labelsOf m)) ∧
+    ∃ L : List Int, L.map Int.toNat = labelsOf m ∧
+      ((LazyIx.mkLookup m.length (.mask m) = .ok none ∧ L = LazyIx.fullList m.length) ∨
+        LazyIx.mkLookup m.length (.mask m) = .ok (some L)) := by
+  refine ⟨by simp [Ix.resolve, labelsOf], ?_⟩
+  obtain ⟨L, _, _, hres, hlk⟩ := C05.mkLookup_spec m.length (.mask m) (by simp [LazyIx.stage1InG])
+  refine ⟨L, ?_, hlk⟩
+  simp only [Ix.resolve, if_true] at hres
+  simp only [Except.ok.injEq, Sel.many.injEq] at hres
+  exact hres.symm
+
+/-- **Elements**: whenever a second-stage read succeeds, its shape is the second stage's shape
+    and element `js` of the result is the stored sample at
+    `(dumps[j₀'], channels[j₁'], corr_products[j₂'])`, where `j'` are the coordinates the second
+    stage alone would read — i.e. the coordinates named by the data set's own attributes. -/
+theorem c01_elements (t f b : List Bool) (k2 : List Ix) (c : List Sel)
+    (h : readSel t f b k2 = .ok c) :
+    ∃ s2 : List Sel,
+      resolveAll [(labelsOf t).length, (labelsOf f).length, (labelsOf b).length] (LazyIx.padTrunc 3 k2) = .ok s2 ∧
+      selShape c = selShape s2 ∧
+      ∀ js, inBounds (selShape s2) js →
+        pickCoords c js =
+          pickCoords [.many (labelsOf t), .many (labelsOf f), .many (labelsOf b)] (pickCoords s2 js) := by
+  unfold readSel at h
+  simp only [selShape, bind, Except.bind] at h
+  cases hr : resolveAll [(labelsOf t).length, (labelsOf f).length, (labelsOf b).length] (LazyIx.padTrunc 3 k2) with
+  | error e => simp [hr] at h
+  | ok s2 =>
+    simp only [hr] at h
+    obtain ⟨hs, hp⟩ := composeAll_spec _ s2 c h
+    exact ⟨s2, rfl, hs, hp⟩
+
+/-- for a stored array `a` (any element type, any format conversion `conv` applied elementwise)
+    the selected data set followed by a second-stage read is outer indexing of the converted
+    stored array by the composed coordinates -/
+theorem c01_elements_array {α β} (a : NDArr α) (conv : α → β) (t f b : List Bool) (k2 : List Ix) (c : List Sel)
+    (h : readSel t f b k2 = .ok c) (js : List Nat) :
+    (oindexSel (a.map conv) c).get js = conv (a.get (pickCoords c js)) := rfl
+
+/-- **Labels never drift from the data**: position `i` of a label array restricted to the
+    selection carries the label of source position `dumps[i]` — the same source position that
+    `pickCoords` uses for the data on that axis -/
+theorem c01_labels {α} (labels : List α) (ks : List Nat) (hk : ∀ k ∈ ks, k < labels.length) (i : Nat)
+    (hi : i < ks.length) :
+    (pickLabels labels ks)[i]? = labels[ks[i]]? := by
+  unfold pickLabels
+  induction ks generalizing i with
+  | nil => simp at hi
+  | cons k t ih =>
+    have hkl : k < labels.length := hk k (List.mem_cons_self ..)
+    simp only [List.filterMap_cons, List.getElem?_eq_getElem hkl]
+    cases i with
+    | zero => simp [List.getElem?_eq_getElem hkl]
+    | succ i =>
+      simp only [List.getElem?_cons_succ, List.getElem_cons_succ]
+      exact ih (fun x hx => hk x (List.mem_cons_of_mem _ hx)) i (by simpa using hi)
+
+theorem c01_labels_length {α} (labels : List α) (ks : List Nat) (hk : ∀ k ∈ ks, k < labels.length) :
+    (pickLabels labels ks).length = ks.length := by
+  unfold pickLabels
+  induction ks with
+  | nil => rfl
+  | cons k t ih =>
+    have hkl : k < labels.length := hk k (List.mem_cons_self ..)
+    simp only [List.filterMap_cons, List.getElem?_eq_getElem hkl, List.length_cons]
+    rw [ih (fun x hx => hk x (List.mem_cons_of_mem _ hx))]
+
+/-- **Shape**: the shape of the selected data (before any second stage) is
+    `(len(timestamps), len(freqs), len(corr_products))` -/
+theorem c01_shape {α β γ} (ts : List α) (fr : List β) (cp : List γ) (t f b : List Bool)
+    (ht : t.length = ts.length) (hf : f.length = fr.length) (hb : b.length = cp.length) :
+    selShape [.many (labelsOf t), .many (labelsOf f), .many (labelsOf b)] =
+      [(pickLabels ts (labelsOf t)).length, (pickLabels fr (labelsOf f)).length,
+       (pickLabels cp (labelsOf b)).length] := by
+  have h1 := c01_labels_length ts (labelsOf t) (fun k hk => by have := (c01_labels_valid t).2 k hk; omega)
+  have h2 := c01_labels_length fr (labelsOf f) (fun k hk => by have := (c01_labels_valid f).2 k hk; omega)
+  have h3 := c01_labels_length cp (labelsOf b) (fun k hk => by have := (c01_labels_valid b).2 k hk; omega)
+  simp [selShape, h1, h2, h3]
+
+/-- keepdims keeps scalar-indexed axes with length one and changes nothing else -/
+theorem c01_keepdims (s : List Sel) : (keepdimsShape s).length = s.length ∧
+    (keepdimsShape s).filter (fun x => x != 1) = (selShape s).filter (fun x => x != 1) := by
+  induction s with
+  | nil => simp [keepdimsShape, selShape]
+  | cons a t ih =>
+    cases a with
+    | one k => simp [keepdimsShape, selShape, ih.1, ih.2]
+    | many ks =>
+      simp only [keepdimsShape, selShape, List.length_cons, ih.1, true_and]
+      by_cases h : ks.length = 1 <;> simp [List.filter_cons, h, ih.2]
+
+/-! Snapshot semantics: in the model an acquired indexer *is* the value `readSel t f b` for the
+    masks in force at acquisition, so later `select` steps (which produce new states) cannot
+    affect it.  That the code really copies (deep copy in DaskLazyIndexer, mask → index conversion
+    in LazyIndexer.__init__) is what the correspondence run checks; HDF5 v1 does not (known
+    finding C01-v1-snapshot). -/
+
+example : readSel [true, false, true, true] [true, true, false] [true, true]
+    [.slice none none (some 2), .int (-1)] = .ok [.many [0, 3], .one 1, .many [0, 1]] := by decide
+example : labelsOf (padTimeMask [true, false, true] 4) = [0, 2] := by decide
+
 end C01
